@@ -305,6 +305,10 @@ class Server:
         # which is done in the get_descriptive data
         # TODO: caching, to not make this extra work
         self.secnode.get_descriptive_data('')
+        # modules which are neither exported nor attached to an other module
+        # are not touched by above: initialize them here
+        for modname in list(self.secnode.modules):
+            self.secnode.get_module(modname)
         # =========== All modules are initialized ===========
 
         # all errors from initialization process
